@@ -1,6 +1,7 @@
 SPECIFICATION MCSpec
 CONSTANTS
+  Wide = FALSE
   MaxCalls = 4
   RepN = {0, 2}
-INVARIANTS LeftToRight StopsAtFirstFailure ErrorLocates PrefixOfFullRun Emit
+INVARIANTS LeftToRight StopsAtFirstFailure ErrorLocates PrefixOfFullRun ScorerFaithful Emit
 CHECK_DEADLOCK FALSE
